@@ -581,7 +581,12 @@ def r4(ctx):
     ctx.check(uses_aliases_for_key, "C04.R4", "the transform-state key is mapped back through the alias table (distinct quoted names keep distinct keys)", se.where,
               ctx.construct(se, text="state key from sanitised text"),
               "stateful_eval keys the state with the SANITISED call text: `scale(`a b`)` and `scale(`a.b`)` both become `scale(a_b)` and share one state entry")
-    ev = P.func(MAT + "._evaluate")
+    # wherever in the materializer the stateful evaluator is called (a small method of its own today)
+    evs = [g for q, g in P.functions.items() if q.startswith(MAT + ".") and not isinstance(g.node, ast.Lambda)
+           and any(isinstance(c, ast.Call) and dotted(c.func) == "stateful_eval" for c in walk_no_nested(g.node))]
+    if len(evs) != 1:
+        raise AnalysisError(f"C04.R4: the stateful_eval call of the materializer was not found ({[g.qualname for g in evs]})")
+    ev = evs[0]
     c = [c for c in ast.walk(ev.node) if isinstance(c, ast.Call) and dotted(c.func) == "stateful_eval"]
     sefn = se.node
     ok = len(c) == 1 and norm(arg_for(c[0], sefn, "state") or ast.Constant(0)) == "spec.transform_state" and norm(arg_for(c[0], sefn, "spec") or ast.Constant(0)) == "spec" \
